@@ -414,9 +414,6 @@ end
 /-- Compiler configuration that the emitter depends on. -/
 structure Cfg where
   strict : Bool              -- c.scope.strict
-  /-- does `binding.emitSetP` pop the value when the target is a non-strict const binding and no throw is emitted?
-      (compiler.go:183; regenerated fact `Gen.setPPopsSloppyConst`) -/
-  setPPops : Bool
 deriving Repr, DecidableEq
 
 /-! ### constant folding (compiler_expr.go:2433 evalConst, `constant()` methods) -/
@@ -596,8 +593,15 @@ def emitBindingSet (cfg : Cfg) (c : IdClass) (p : Bool) : Code :=
   | .stackVar => .ins (if p then iKeep1 "storeStack" else ⟨"storeStackP", 0, 1, 1, 0, false⟩)
   | .const isStrict =>
       if isStrict || cfg.strict then .ins iThrowAssignToConst
-      else if !p && cfg.setPPops then .ins iPop else .nil
+      else if !p then .ins iPop else .nil      -- emitSetP pops the ignored value (fix 5a4962f); emitSet keeps it
   | _ => .ins (if p then iKeep1 "storeStackLex" else ⟨"storeStackLexP", 0, 1, 1, 0, false⟩)
+
+/-- The mechanism BEFORE fix 5a4962f (kept only for the regression lemma `emit_height_prefix_witness`):
+`emitSetP` emitted nothing for a non-strict const binding in sloppy code. -/
+def emitBindingSetPrefix (cfg : Cfg) (c : IdClass) (p : Bool) : Code :=
+  match c with
+  | .const isStrict => if isStrict || cfg.strict then .ins iThrowAssignToConst else .nil
+  | c => emitBindingSet cfg c p
 
 def isDyn : IdClass → Bool
   | .global => true
